@@ -1078,7 +1078,9 @@ theorem restart_decompose (mode : Mode) (rt rt' : Runtime) (h : restart mode rt 
       rt' = { rt with
         storage := { restoreProgVars s2 (retainedPvOf mode rt) with frames := 0 },
         time := 0,
-        taskState := rt.taskState.map (fun _ => newTaskState 0),
+        taskState := rt.tasks.map (fun t =>
+          registerTaskState (restoreProgVars s2 (retainedPvOf mode rt)) 0 t.single),
+        io := if mode.isWarm then rt.io else rt.io.zeroImages,
         fault := none,
         cycleCounter := 0 } := by
   unfold restart at h
@@ -1621,7 +1623,8 @@ theorem build_spec (src : Source) (fr : Runtime) (h : build src = some fr)
       fr.fbs = src.fbDefs ∧ fr.programs = src.programs.map ProgDecl.toDef ∧
       fr.time = 0 ∧ fr.fault = none ∧ fr.cycleCounter = 0 ∧
       fr.taskState = src.tasks.map (fun t => registerTaskState s2 0 t.single) ∧
-      fr.io.inputs = [] ∧ fr.io.outputs = [] ∧ fr.io.memory = [] := by
+      fr.io.inputs = [] ∧ fr.io.outputs = [] ∧ fr.io.memory = [] ∧
+      fr.tasks.map (·.single) = src.tasks.map (·.single) := by
   unfold build at h
   simp only at h
   cases hb : buildGlobals src.fbDefs {} src.globals with
@@ -1645,7 +1648,7 @@ theorem build_spec (src : Source) (fr : Runtime) (h : build src = some fr)
         have hnd' : ((src.globals.map GlobalDecl.toMeta).map (·.name)).Nodup := by
           simpa [List.map_map, GlobalDecl.toMeta, Function.comp_def] using hnd
         obtain ⟨_, _, g3⟩ := resetGlobals_spec src.fbDefs false [] _ {} s1 hb' hnd'
-        refine ⟨s1, s2, hb', buildPrograms_storage _ _ _ _ _ _ hp, ?_, ?_, ?_, ?_, ?_, ?_, ?_, ?_, ?_, ?_, ?_⟩
+        refine ⟨s1, s2, hb', buildPrograms_storage _ _ _ _ _ _ hp, ?_, ?_, ?_, ?_, ?_, ?_, ?_, ?_, ?_, ?_, ?_, ?_⟩
         · rw [← h]
         · rw [← h]
           simp only
@@ -1659,6 +1662,7 @@ theorem build_spec (src : Source) (fr : Runtime) (h : build src = some fr)
           | value v => simp only [hi] at post; simp [post]
           | fb ty => rfl
         all_goals (rw [← h])
+        simp [List.map_map, Function.comp_def]
 
 /-- The declarations a build records (no hypothesis on names needed for the program part). -/
 theorem build_spec_meta (src : Source) (fr : Runtime) (h : build src = some fr) :
@@ -1689,11 +1693,35 @@ theorem build_spec_meta (src : Source) (fr : Runtime) (h : build src = some fr) 
           subst h
           simp [List.map_map, Function.comp_def]
 
-/-- Guard "SINGLE initial values FALSE": the fresh runtime seeds `last_single` with FALSE for every
-task (no SINGLE variable, or one that is not TRUE right after the build). -/
-def SingleInitFalse (src : Source) (fr : Runtime) : Prop :=
-  ∀ t, t ∈ src.tasks → registerTaskState fr.storage 0 t.single = newTaskState 0
 
+/-! ### task seeding and zeroed images -/
+
+theorem registerTaskState_congr (s s' : Storage) (single : Option Nat)
+    (h : ∀ n, single = some n → (s.getGlobal n).map obsVal = (s'.getGlobal n).map obsVal) :
+    registerTaskState s 0 single = registerTaskState s' 0 single := by
+  cases single with
+  | none => rfl
+  | some n =>
+    have hn := h n rfl
+    unfold registerTaskState
+    simp only
+    cases ha : s.getGlobal n with
+    | none =>
+      cases hb : s'.getGlobal n with
+      | none => rfl
+      | some b => rw [ha, hb] at hn; cases hn
+    | some a =>
+      cases hb : s'.getGlobal n with
+      | none => rw [ha, hb] at hn; cases hn
+      | some b =>
+        rw [ha, hb] at hn
+        simp only [Option.map_some, Option.some.injEq] at hn
+        cases a <;> cases b <;> simp_all [obsVal]
+
+theorem byteAt_zero_map (b : List Nat) (i : Nat) : byteAt (b.map (fun _ => 0)) i = 0 := by
+  unfold byteAt
+  simp only [List.getD, List.getElem?_map]
+  cases b[i]? <;> rfl
 
 /-! ### concrete witnesses (the harness replays the same projects on the real runtime, cases 0-5) -/
 
@@ -1817,12 +1845,12 @@ def src5 : Source :=
 def fresh5 : Option (Option Int) := (build src5).map fun rt => num? (rt.progVar 0 1)
 def cold5 : Option (Option Int) := (build src5).map fun rt => num? ((restartD .cold rt).progVar 0 1)
 
-/-- Witness 6 (guards hold): SINGLE variable initially FALSE, a RETAIN global FB instance, a
+/-- Witness 6 (guards hold): SINGLE variable initially TRUE (no longer a guard), a RETAIN global FB instance, a
 program with a RETAIN scalar, an unqualified scalar and an FB instance; no instance binding, no
 VAR_CONFIG value. -/
 def src6 : Source :=
   { fbs := [fb4],
-    globals := [{ name := 10, retain := .unspecified, init := .value (.num 1 0) },
+    globals := [{ name := 10, retain := .unspecified, init := .value (.num 1 1) },
                 { name := 11, retain := .retain, init := .value (.num 3 5) },
                 { name := 12, retain := .retain, init := .fb 30 }],
     tasks := [{ name := 20, interval := 0, single := some 10, priority := 1 }],
@@ -1838,6 +1866,18 @@ def rt6 : Runtime := cycN 2 fr6
 
 /-- witness 3 with a configured store, two cycles later -/
 def rt3s : Runtime := cycN 2 (setRetainStore ((build src3).getD {}) false)
+
+/-- Witness 7 (warm restart + load, the resource loop's restart step): witness 3's project; one
+cycle, save (file holds `gr = 1`), three more cycles (`gr = 4`), then `restart(Warm)` alone, and
+`restart(Warm)` followed by `load_retain_store`: the value of `gr`. -/
+def rollback7 : Option (Option Int × Option Int × Option Int) :=
+  (build src3).map fun rt =>
+    let rt := cyc (setRetainStore rt false)
+    let disk := saveRetainStore rt none
+    let rt := cycN 3 rt
+    let w := restartD .warm rt
+    (num? (rt.storage.getGlobal 10), num? (w.storage.getGlobal 10),
+     num? ((loadRetainStore w disk).storage.getGlobal 10))
 
 end W
 
